@@ -52,6 +52,10 @@ def memo_rule(prog, rep, rule="OWN-OUT"):
         decos = [d for d in fi.decorators if d.split("(")[0].split(".")[-1] in MEMO_DECOS]
         if not decos:
             continue
+        # a memoised function nothing calls hands nothing out
+        used = any(isinstance(x, ast.Call) and ((isinstance(x.func, ast.Name) and x.func.id == fi.name) or (isinstance(x.func, ast.Attribute) and x.func.attr == fi.name)) for mi in prog.modules.values() for x in ast.walk(mi.tree))
+        if not used:
+            continue
         n += 1
         bad = None
         for r in [x for x in walk_own(fi.node) if isinstance(x, ast.Return) and x.value is not None]:
